@@ -78,12 +78,16 @@ class Net2d(nn.Module):
         super().__init__()
         self.prog = prog
         c = prog['cin']
+        # 'dim': 1 builds the same program with Conv1d / BatchNorm1d / 1D pooling on inputs (B, C, size)
+        dim = self.dim = prog.get('dim', 2)
+        Conv, BN = (nn.Conv1d, nn.BatchNorm1d) if dim == 1 else (nn.Conv2d, nn.BatchNorm2d)
+        MaxP, AvgP, GAP = (nn.MaxPool1d, nn.AvgPool1d, nn.AdaptiveAvgPool1d) if dim == 1 else (nn.MaxPool2d, nn.AvgPool2d, nn.AdaptiveAvgPool2d)
         self.blocks = nn.ModuleDict()
         # 'two_in': the network has TWO inputs (each cin channels) joined by 'sum' (x + y), 'convsum' (relu(convA(x) + convB(y))) or 'cat'
         self.two_in = prog.get('two_in')
         if self.two_in == 'convsum':
-            self.blocks['ina'] = nn.Conv2d(c, 4, 3, padding=1)
-            self.blocks['inb'] = nn.Conv2d(c, 4, 1)
+            self.blocks['ina'] = Conv(c, 4, 3, padding=1)
+            self.blocks['inb'] = Conv(c, 4, 1)
             c = 4
         elif self.two_in == 'cat':
             c = 2 * c
@@ -94,29 +98,30 @@ class Net2d(nn.Module):
                 dw = st.get('dw', False)
                 co = c if dw else st.get('cout', 4)
                 k = st.get('k', 3)
-                self.blocks[st.get('alias', f's{i}')] = nn.Conv2d(c, co, k, stride=st.get('s', 1), padding=st.get('p', k // 2),
+                self.blocks[st.get('alias', f's{i}')] = Conv(c, co, k, stride=st.get('s', 1), padding=st.get('p', k // 2),
                                                  groups=c if dw else 1, bias=st.get('bias', True),
                                                  padding_mode=st.get('pm', 'zeros'))
                 if st.get('bn'):
-                    self.blocks[f's{i}bn'] = nn.BatchNorm2d(co)
+                    self.blocks[f's{i}bn'] = BN(co)
                 if st.get('act', True):
                     self.blocks[f's{i}act'] = nn.ReLU()
                 c = co
             elif op == 'residual':
                 co = st.get('cout', 4)
-                self.blocks[f's{i}a'] = nn.Conv2d(c, co, 3, padding=1)
-                self.blocks[f's{i}b'] = nn.Conv2d(c, co, 1)
+                self.blocks[f's{i}a'] = Conv(c, co, 3, padding=1)
+                self.blocks[f's{i}b'] = Conv(c, co, 1)
                 c = co
             elif op == 'skipadd':
-                self.blocks[f's{i}a'] = nn.Conv2d(c, c, 3, padding=1)
+                self.blocks[f's{i}a'] = Conv(c, c, 3, padding=1)
             elif op == 'pool':
-                self.blocks[f's{i}'] = nn.MaxPool2d(2) if st.get('kind', 'max') == 'max' else nn.AvgPool2d(2)
+                self.blocks[f's{i}'] = MaxP(2) if st.get('kind', 'max') == 'max' else AvgP(2)
             elif op == 'twice':       # one conv (c -> c) invoked at two call sites, optionally at two resolutions
-                self.blocks[f's{i}'] = nn.Conv2d(c, c, st.get('k', 3), padding=st.get('k', 3) // 2)
+                self.blocks[f's{i}'] = Conv(c, c, st.get('k', 3), padding=st.get('k', 3) // 2)
                 if st.get('pool'):
-                    self.blocks[f's{i}p'] = nn.MaxPool2d(2)
+                    self.blocks[f's{i}p'] = MaxP(2)
             elif op == 'sn':
                 from plinio.methods.supernet import SuperNetModule
+                assert dim == 2, 'choice blocks are generated in 2D only'
                 co = st.get('cout', c)
                 self.blocks[f's{i}'] = SuperNetModule([make_branch(b, c, co) for b in st['branches']],
                                                       gumbel_softmax=st.get('gumbel', False),
@@ -127,7 +132,7 @@ class Net2d(nn.Module):
         self.c_final = c
         self.eval()       # (a BatchNorm in train mode rejects a 1x1 map with batch size 1)
         with torch.no_grad():
-            probe = self._features(torch.zeros(1, self.c_joined, prog['size'], prog['size']))
+            probe = self._features(torch.zeros((1, self.c_joined) + (prog['size'],) * dim))
         self.train()
         h = prog.get('head', 'flatlin')
         out = prog.get('out', 3)
@@ -135,7 +140,7 @@ class Net2d(nn.Module):
         if h == 'flatlin':
             self.head['fc'] = nn.Linear(int(probe[0].numel()), out)
         elif h == 'gaplin':
-            self.head['gap'] = nn.AdaptiveAvgPool2d(1)
+            self.head['gap'] = GAP(1)
             self.head['fc'] = nn.Linear(c, out)
         elif h == 'linlin':
             self.head['fc1'] = nn.Linear(int(probe[0].numel()), 5)
@@ -144,14 +149,14 @@ class Net2d(nn.Module):
             self.head['relu'] = nn.ReLU()
             self.head['fc'] = nn.Linear(5, out)
         elif h == 'fcn':          # fully convolutional: a 1x1 conv is the network output
-            self.head['out'] = nn.Conv2d(c, out, 1)
+            self.head['out'] = Conv(c, out, 1)
         elif h == 'fcnskip':      # the output is produced by a sum: convB(relu(convA(x))) + convA(x)
-            self.head['oa'] = nn.Conv2d(c, out, 3, padding=1)
-            self.head['ob'] = nn.Conv2d(out, out, 3, padding=1)
+            self.head['oa'] = Conv(c, out, 3, padding=1)
+            self.head['ob'] = Conv(out, out, 3, padding=1)
         elif h == 'dwout':        # conv -> depthwise conv + BN is the output
-            self.head['oa'] = nn.Conv2d(c, out, 1)
-            self.head['od'] = nn.Conv2d(out, out, 3, padding=1, groups=out)
-            self.head['obn'] = nn.BatchNorm2d(out)
+            self.head['oa'] = Conv(c, out, 1)
+            self.head['od'] = Conv(out, out, 3, padding=1, groups=out)
+            self.head['obn'] = BN(out)
         else:
             raise ValueError(h)
 
@@ -231,7 +236,7 @@ def build(prog, seed, positive_input=True):
                 mod.weight.copy_(torch.rand(mod.weight.shape, generator=g) + 0.5)
                 mod.bias.copy_(torch.randn(mod.bias.shape, generator=g) * 0.3)
     m.eval()
-    shape = (3, prog['cin'], prog['size'], prog['size'])
+    shape = (3, prog['cin']) + (prog['size'],) * prog.get('dim', 2)
     x = torch.rand(shape, generator=g) if positive_input else torch.randn(shape, generator=g)
     if prog.get('two_in'):
         x = (x, torch.rand(shape, generator=g) if positive_input else torch.randn(shape, generator=g))
@@ -251,4 +256,4 @@ def shape_args(prog, x):
 
 
 def input_shape(prog):
-    return (prog['cin'], prog['size'], prog['size'])
+    return (prog['cin'],) + (prog['size'],) * prog.get('dim', 2)
